@@ -25,6 +25,7 @@ int par_batch(Cipher c, int be);             /* expected parallel_size */
 /* CTR; `be` pins the back end for init.  rounds only for Mantis. */
 int ctr_init(Cipher c, int be, CtrObj *o);
 void ctr_cleanup(Cipher c, CtrObj *o);
+extern int g_obj_args_copy;   /* setters pass a scratch copy of key / tweak / counter and overwrite it after the call */
 int ctr_set_key(Cipher c, CtrObj *o, const void *key, unsigned len, unsigned rounds);
 int ctr_set_tweaked_key(Cipher c, CtrObj *o, const void *key, unsigned len);
 int ctr_set_tweak(Cipher c, CtrObj *o, const void *tweak, unsigned len);
